@@ -52,6 +52,7 @@ type actors struct {
 	apiLevel bool // this run: every call runs to its end or to a blocking point before the next one is issued
 	steps    int
 	overrun  bool
+	unstable bool // quiescence was not reached within the cap: no verdict
 }
 
 // instActors maps goroutine ids to actors while a conc-inst run is active.
@@ -194,7 +195,10 @@ func (as *actors) waitStable() map[*actor]string {
 	stable := 0
 	var last string
 	var blocked map[*actor]string
-	for i := 0; i < 20000; i++ {
+	// (up to a minute: on a loaded machine a runnable actor may wait long
+	// for a CPU; giving up earlier could report a goroutine as blocked that
+	// is merely waiting for one that has not run yet)
+	for i := 0; i < 400000; i++ {
 		st := goroutineStates()
 		blocked = map[*actor]string{}
 		all := true
@@ -231,6 +235,7 @@ func (as *actors) waitStable() map[*actor]string {
 		last = sb.String()
 		time.Sleep(150 * time.Microsecond)
 	}
+	as.unstable = true
 	return blocked
 }
 
@@ -576,6 +581,10 @@ func runConc(env *RunEnv, inst bool) {
 	if ps := as.panics(); len(ps) > 0 && len(viol) == 0 {
 		sig := "panic:" + regexp.MustCompile(`[^A-Za-z]+`).ReplaceAllString(strings.SplitN(ps[0], ": ", 2)[1], "_")
 		violate("no-panic", sig, "an actor panicked: "+strings.Join(ps, "; "))
+	}
+	if as.unstable {
+		viol = nil
+		env.Res.HarnessErr = "conc: the actors did not come to rest within a minute (overloaded machine?): no verdict"
 	}
 	if as.overrun && len(viol) == 0 {
 		env.Res.HarnessErr = fmt.Sprintf("conc-inst: more than %d statement steps in one run", maxInstSteps)
